@@ -170,6 +170,29 @@ func c03ShareFormula(p *Prog, s *c03Strat) (int, []string) {
 				}
 			}
 			if core == nil {
+				// the clamp written as a branch: on this path the stored value is 1 where x < 1 was established, or x where
+				// x >= 1 was (if x < 1 { x = 1 })
+				isOne := func(w ssa.Value) bool { f, ok := constFloat(strip(w, true)); return ok && f == 1 }
+				for _, r := range pa.Rels(step + 1) {
+					for _, rr := range []Rel{r, {X: r.Y, Y: r.X, Op: flipOp(r.Op)}} {
+						if !isOne(rr.Y) {
+							continue
+						}
+						x := strip(pa.Resolve(rr.X, step), true)
+						switch rr.Op {
+						case token.LSS, token.LEQ:
+							if isOne(v) {
+								core = x
+							}
+						case token.GEQ, token.GTR:
+							if x == v {
+								core = x
+							}
+						}
+					}
+				}
+			}
+			if core == nil {
 				bad = append(bad, fmt.Sprintf("%s: the share is not max(1, ...): %s", p.At(st), valueString(v)))
 				return true
 			}
